@@ -57,7 +57,7 @@ def line(e1="bufF", e2="buf0", cap1=1, cap2=1, sb=True, mb=True, wc=1, setup=0, 
 
 
 def diamond(in_pol="FIRST_AVAILABLE", out_pol="FIRST_AVAILABLE", wc=1, mb=True, cap=1, sinks=1, n=2, until=14, slow_sink=False,
-            order="nodes_first", pd=None, bd=0):
+            order="nodes_first", pd=None, bd=0, ein="buf", eout="buf"):
     nodes = [src("S1", n=n), src("S2", n=n, iat=[1, 2, 0.5]),
              mach("M", wc=wc, blocking=mb, in_pol=in_pol, out_pol=out_pol, pd=pd)]
     edges = [buf("I1", "S1", "M", cap=cap, delay=bd), buf("I2", "S2", "M", cap=cap, delay=bd)]
@@ -71,8 +71,12 @@ def diamond(in_pol="FIRST_AVAILABLE", out_pol="FIRST_AVAILABLE", wc=1, mb=True, 
         # congestion: the out-edges feed a slow second machine instead of sinks
         nodes = [x for x in nodes if x["t"] != "sink"] + [mach("M2", pd=[2, 3], in_pol="FIRST_AVAILABLE"), sink("K")]
         edges = edges[:2] + [buf("O1", "M", "M2", cap=cap), buf("O2", "M", "M2", cap=cap), buf("Z", "M2", "K", cap=1)]
+    if ein != "buf":
+        edges = [EDGE_KINDS[ein](e["id"], e["src"], e["dst"], cap) if e["id"] in ("I1", "I2")[1 if ein.endswith("2") else 0:] else e for e in edges]
+    if eout != "buf":
+        edges = [EDGE_KINDS[eout](e["id"], e["src"], e["dst"], cap) if e["id"] in ("O1", "O2") else e for e in edges]
     return {"nodes": nodes, "edges": edges, "until": until, "order": order, "family": "diamond",
-            "tag": "diamond(%s,%s,wc%d,mb%d,c%d,k%d,slow%d,%s)" % (_p(in_pol), _p(out_pol), wc, mb, cap, sinks, slow_sink, order)}
+            "tag": "diamond(%s,%s,wc%d,mb%d,c%d,k%d,slow%d,%s,%s,%s)" % (_p(in_pol), _p(out_pol), wc, mb, cap, sinks, slow_sink, order, ein, eout)}
 
 
 def _p(p):
@@ -85,7 +89,7 @@ def series(wc1=1, wc2=1, cap=1, b1=True, b2=True, n=3, until=16, order="nodes_fi
             "until": until, "order": order, "family": "series", "tag": "series(wc%d%d,c%d,b%d%d,%s)" % (wc1, wc2, cap, b1, b2, order)}
 
 
-def fan(n_out=3, pol="ROUND_ROBIN", node="source", blocking=True, cap=1, n=4, until=12):
+def fan(n_out=3, pol="ROUND_ROBIN", node="source", blocking=True, cap=1, n=4, until=12, order="nodes_first", cpd=None):
     """one node with n_out out-edges (policy under test), slow consumers behind them"""
     if node == "source":
         nodes = [src("S", n=n, blocking=blocking, pol=pol)]
@@ -96,12 +100,12 @@ def fan(n_out=3, pol="ROUND_ROBIN", node="source", blocking=True, cap=1, n=4, un
         first = "M"
         edges = [buf("I", "S", "M", cap=2)]
     for i in range(n_out):
-        nodes.append(mach("C%d" % i, pd=[1, 2]))
+        nodes.append(mach("C%d" % i, pd=cpd or [1, 2]))
         nodes.append(sink("K%d" % i))
         edges.append(buf("O%d" % i, first, "C%d" % i, cap=cap))
         edges.append(buf("Z%d" % i, "C%d" % i, "K%d" % i, cap=1))
-    return {"nodes": nodes, "edges": edges, "until": until, "family": "fan",
-            "tag": "fan(%s,%d,%s,b%d,c%d)" % (node, n_out, _p(pol), blocking, cap)}
+    return {"nodes": nodes, "edges": edges, "until": until, "family": "fan", "order": order,
+            "tag": "fan(%s,%d,%s,b%d,c%d,%s)" % (node, n_out, _p(pol), blocking, cap, order)}
 
 
 def fan_in(n_in=3, pol="ROUND_ROBIN", n=2, until=12, cap=1):
@@ -177,6 +181,13 @@ def diamonds(tier):
     for order in ("edges_first", "reversed"):
         out.append(diamond(order=order, slow_sink=True, wc=2))
     out.append(diamond(bd=("call", BD), cap=2))
+    for ek in ("fleet", "bufF", "bufL"):
+        out.append(diamond(ein=ek, until=20, n=3))
+        out.append(diamond(ein=ek, until=20, n=3, pd=[2, 3], wc=1))
+        out.append(diamond(eout=ek, until=20, slow_sink=True))
+    for order in ("edges_first", "reversed"):
+        out.append(diamond(order=order, slow_sink=True, wc=1, pd=[0, 1]))
+        out.append(diamond(order=order, sinks=2, wc=2))
     out.append(diamond(in_pol="ROUND_ROBIN", out_pol="ROUND_ROBIN", mb=False, slow_sink=True))
     return out
 
@@ -189,7 +200,33 @@ def fans(tier):
                 out.append(fan(3, pol, node, blocking))
     for pol in ("ROUND_ROBIN", "RANDOM", "FIRST_AVAILABLE", 1, ("call",)):
         out.append(fan_in(3, pol))
+    for order in ("reversed", "edges_first"):
+        for node in ("source", "machine"):
+            out.append(fan(2, "FIRST_AVAILABLE", node, True, order=order, cpd=[2, 1], n=5, until=14))
+            out.append(fan(3, "FIRST_AVAILABLE", node, True, order=order, n=5, until=14))
     return out
+
+
+def comb_series(r1=(1, 1), r2=(1, 2), until=24, n_pal=2, order="nodes_first", blocking=True):
+    """two combiners in series: the second one receives pallets that already carry items"""
+    nodes = [src("SP", n=n_pal, flow="pallet", iat=[1, 2]), src("SA", n=3, iat=[1, 0.5]), src("SB", n=5, iat=[1, 0.5]),
+             {"t": "combiner", "id": "C1", "recipe": list(r1), "pd": ("call", [1, 0]), "blocking": blocking},
+             {"t": "combiner", "id": "C2", "recipe": list(r2), "pd": ("call", [1, 0]), "blocking": blocking}, sink("K")]
+    edges = [buf("P", "SP", "C1", cap=2), buf("A", "SA", "C1", cap=2), buf("C12", "C1", "C2", cap=1), buf("B", "SB", "C2", cap=2),
+             buf("OUT", "C2", "K", cap=1)]
+    return {"nodes": nodes, "edges": edges, "until": until, "order": order, "family": "comb_series",
+            "tag": "comb_series(%s,%s,%s,b%d)" % (list(r1), list(r2), order, blocking)}
+
+
+def comb_split_slow(recipe=(1, 2), out_pol="ROUND_ROBIN", sblocking=False, blocking=True, until=20):
+    """splitter feeding two slow machines: its out-edges are full when items and pallets are pushed"""
+    c = comb_split(recipe, sinks=2, out_pol=out_pol, sblocking=sblocking, blocking=blocking, until=until, n_pal=3, n_item=6)
+    nodes = [x for x in c["nodes"] if x["t"] != "sink"] + [mach("D1", pd=[3, 2]), mach("D2", pd=[3, 4]), sink("K1"), sink("K2")]
+    edges = [e for e in c["edges"] if not e["id"].startswith("XK")] + [buf("XK1", "X", "D1", cap=1), buf("XK2", "X", "D2", cap=1),
+                                                                     buf("Z1", "D1", "K1", cap=1), buf("Z2", "D2", "K2", cap=1)]
+    c["nodes"], c["edges"] = nodes, edges
+    c["tag"] = "comb_split_slow(%s,%s,sb%d,b%d)" % (list(recipe), _p(out_pol), sblocking, blocking)
+    return c
 
 
 def combiners(tier):
@@ -203,6 +240,14 @@ def combiners(tier):
     out.append(comb_split((1, 1), order="reversed"))
     out.append(comb_split((1, 2), pal_iat=[3, 1], item_iat=[0.5, 1]))
     out.append(comb_split((1, 1, 1), pal_iat=[0.5, 1], item_iat=[2, 1], until=20))
+    for pol in ("ROUND_ROBIN", "FIRST_AVAILABLE", 1, ("call",), "RANDOM"):
+        for sb in (False, True):
+            out.append(comb_split_slow((1, 2), out_pol=pol, sblocking=sb))
+    out.append(comb_split_slow((1, 1), out_pol="ROUND_ROBIN", sblocking=False, blocking=False))
+    out.append(comb_series())
+    out.append(comb_series((1, 2), (1, 1)))
+    out.append(comb_series(order="reversed"))
+    out.append(comb_series(blocking=False))
     return out
 
 
